@@ -4,7 +4,7 @@
 From Coq Require Import Reals List.
 From Coquelicot Require Import Coquelicot.
 From LV Require Import Analytic.Sigmoid Analytic.SigmoidProofs Analytic.Copula Analytic.CopulaProofs
-  Analytic.MvnDegen Analytic.MvnDegenProofs.
+  Analytic.MvnDegen Analytic.MvnDegenProofs Analytic.MvnMatrix Analytic.MvnMatrixProofs.
 Import ListNotations.
 Open Scope R_scope.
 
@@ -109,6 +109,33 @@ Theorem C18_mvn_sample_support : forall d z, 0 < tolv d ->
   /\ (forall v, null_vector (dim d) (evals d) v -> rsum (dim d) (fun i => v i * sample_coord d z i) = 0).
 Proof. exact mvn_sample_support. Qed.
 Print Assumptions C18_mvn_sample_support.
+
+(* matrix level: the quadratic form of  H diag(lam) H^T  is the eigen-coordinate one (pure algebra), and for
+   orthonormal H a null-space vector  H nv  is annihilated by the precision matrix and leaves the log-density unchanged *)
+Theorem C18_mvn_quadform_eigen : forall n H lam x,
+  quadform n (prec_of n H lam) x = quad n lam (coords n H x).
+Proof. exact quadform_eigen. Qed.
+
+Theorem C18_mvn_logpdf_matrix_eigen : forall d H xc,
+  logpdf_matrix d H xc = logpdf d (coords (dim d) H xc).
+Proof. exact logpdf_matrix_eigen. Qed.
+
+Theorem C18_mvn_null_vector_annihilated : forall n H lam nv a, orthonormal_cols n H ->
+  null_vector n lam nv ->
+  mat_vec n (prec_of n H lam) (from_coords n H nv) a = 0.
+Proof. exact null_vector_annihilated. Qed.
+
+Theorem C18_mvn_matrix_nullspace_invariant : forall d H xc nv,
+  orthonormal_cols (dim d) H -> null_vector (dim d) (evals d) nv ->
+  logpdf_matrix d H (fun a => xc a + from_coords (dim d) H nv a) = logpdf_matrix d H xc.
+Proof. exact logpdf_matrix_nullspace_invariant. Qed.
+Print Assumptions C18_mvn_matrix_nullspace_invariant.
+
+Example C18_mvn_matrix_example :
+  orthonormal_cols 2 ex_H /\
+  forall x, quadform 2 (prec_of 2 ex_H (fun i => match i with O => 0 | _ => 5 end)) x
+            = 5 * (4 / 5 * x 0%nat - 3 / 5 * x 1%nat) ^ 2.
+Proof. exact matrix_example. Qed.
 
 (* the spectral-gap hypotheses cannot be dropped (conditioning limit of the absolute tolerance) *)
 Theorem C18_mvn_range_gaussian_needs_gap :
